@@ -27,6 +27,12 @@ AbsTransfer(S) ==
   /\ d' = [k \in DOMAIN d |-> IF k \in S /\ m[k].ts >= d[k].ts THEN m[k] ELSE d[k]]
   /\ m' = [k \in DOMAIN m |-> IF k \in S THEN NoEntry ELSE m[k]]
 
+\* an import that failed: the receiver keeps what it stored before the failure, the sender keeps its table
+AbsCopy(S) ==
+  /\ S \subseteq PresentKeys
+  /\ d' = [k \in DOMAIN d |-> IF k \in S /\ m[k].ts >= d[k].ts THEN m[k] ELSE d[k]]
+  /\ UNCHANGED m
+
 LiveBytes == LET RECURSIVE S(_) S(K) == IF K = {} THEN 0 ELSE LET k == CHOOSE x \in K : TRUE IN m[k].sz + S(K \ {k})
              IN S(PresentKeys)
 =============================================================================
